@@ -27,7 +27,7 @@ ASSUMPTIONS = [
 ]
 KINDS = ["inst", "operand", "operand", "genreg", "genreg", "indreg", "stackreg", "basereg"]
 MUTATORS = ["none", "none", "none", "prefix-ext", "prefix-ext", "other-member", "wrong-width", "non-member", "swap-names", "last-operand", "unrelated-op", "def-empty", "def-non-member", "def-wrong-width", "case-variant"]
-FLOORS = {"kind=inst": 0.08, "kind=operand": 0.12, "kind=regfam": 0.16, "mut=prefix-ext": 0.06, "expect=found": 0.25, "near-miss": 0.3, "kind=deref-field": 0.06, "kind=deref-operator-capture": 0.04, "kind=many-names": 0.01, "deref-keys=permuted": 0.04}
+FLOORS = {"kind=inst": 0.08, "kind=operand": 0.12, "kind=regfam": 0.16, "mut=prefix-ext": 0.06, "expect=found": 0.25, "near-miss": 0.3, "kind=deref-field": 0.06, "kind=deref-operator-capture": 0.04, "kind=many-names": 0.01, "kind=names-differ-in-case-only": 0.08, "deref-keys=permuted": 0.04}
 
 # operands with prefix / extension relatives (att, norm)
 RELATED = [
@@ -66,6 +66,8 @@ def cases(draw):
     full = draw(st.sampled_from([(False, False), (False, False), (False, False), (True, False), (False, True), (True, True)]))
     nnames = draw(st.integers(1, 3))
     names = []
+    # 'different names are independent' also when they differ only in letter case (&Src / &src / &SRC, &genreg-A / &genreg-a)
+    by_case = nnames >= 2 and draw(st.integers(0, 2)) == 0
     for q in range(nnames):
         kind = draw(st.sampled_from(KINDS))
         if mut == "prefix-ext" and q == 0:
@@ -73,15 +75,15 @@ def cases(draw):
         if kind == "inst":
             m, oa, on = draw(instruction_body())
             assume(" " not in "".join(oa))
-            names.append({"kind": "inst", "name": f"&i{q}", "bind": [m, oa, on]})
+            names.append({"kind": "inst", "name": "&" + ["Src", "src", "SRC"][q] if by_case else f"&i{q}", "bind": [m, oa, on]})
         elif kind == "operand":
             grp = draw(st.sampled_from(RELATED)) if (draw(st.booleans()) or mut == "prefix-ext") else [draw(st.sampled_from(OPERANDS))]
             o = draw(st.sampled_from(grp))
-            names.append({"kind": "operand", "name": f"&x{q}", "bind": list(o), "group": [list(g) for g in grp]})
+            names.append({"kind": "operand", "name": "&" + ["Src", "src", "SRC"][q] if by_case else f"&x{q}", "bind": list(o), "group": [list(g) for g in grp]})
         else:
             fam = "&" + kind
             reg = draw(st.sampled_from(sorted(FAMILIES[fam])))
-            tag = draw(st.sampled_from(["", f"-{q}", f"-{'abc'[q]}", f".acc{q}", f".x.y{q}"]))
+            tag = ["-A", "-a", "-Aa"][q] if by_case else draw(st.sampled_from(["", f"-{q}", f"-{'abc'[q]}", f".acc{q}", f".x.y{q}"]))
             names.append({"kind": "regfam", "fam": fam, "name": fam + tag, "bind": reg})
     # distinct capture keys
     assume(len({n["name"] for n in names}) == len(names))
@@ -313,7 +315,7 @@ def cases(draw):
         L.append([format(a, "x"), m, list(oa), list(on)])
         a += draw(st.integers(1, 7))
     multi = any(v >= 2 for v in occurrences.values())
-    return {"flags": list(full), "mut": applied if mut != "none" else "none", "asked": mut, "listing": L, "pattern": pattern, "kinds": sorted({n["kind"] for n in names}), "multi": multi,
+    return {"flags": list(full), "mut": applied if mut != "none" else "none", "asked": mut, "listing": L, "pattern": pattern, "kinds": sorted({n["kind"] for n in names}) + (["names-differ-in-case-only"] if by_case else []), "multi": multi,
             "shipped": bool(used_shipped)}
 
 
